@@ -112,6 +112,10 @@ theorem tdl_corruptFreq_last (proc : Proc α) (fftK : Fft α) (c c' : Tdl α) (x
     ∃ l, concatIR (blockIRs proc c fft nb c.pos) = .ok l ∧ c'.last = some l := by
   unfold Tdl.corruptFreq at h
   simp only [hp, bind, Except.bind, pure, Except.pure] at h
+  cases hso : c.signalOk x with
+  | false => simp [hso, throw, throwThe, MonadExceptOf.throw] at h
+  | true =>
+  simp only [hso, Bool.not_true, Bool.false_eq_true, if_false] at h
   cases hc : concatIR (blockIRs proc c fft nb c.pos) with
   | error e => simp [hc] at h
   | ok l =>
@@ -128,8 +132,26 @@ theorem tdl_corruptFreq_last (proc : Proc α) (fftK : Fft α) (c c' : Tdl α) (x
         | cons w rest => simp [throw, throwThe, MonadExceptOf.throw] at h
     | some d =>
       simp only [ha] at h
-      by_cases hl : x.length < (c.dims d.1 d.2).2
+      by_cases hl : x.length = (c.dims d.1 d.2).2
+      swap
       · simp [hl, throw, throwThe, MonadExceptOf.throw] at h
-      · simp only [hl, if_false, Except.ok.injEq, Prod.mk.injEq] at h; rw [← h.1]
+      · simp only [hl, ne_eq, not_true_eq_false, if_false, Except.ok.injEq, Prod.mk.injEq] at h; rw [← h.1]
+
+
+theorem blockIRs_ignores_last (proc : Proc α) (c : Tdl α) (l : Option (IR α)) (fft nb pos : Nat) :
+    blockIRs proc ({ c with last := l } : Tdl α) fft nb pos = blockIRs proc c fft nb pos := by
+  induction nb generalizing pos with
+  | zero => rfl
+  | succ nb ih =>
+    simp only [blockIRs]
+    rw [ih]
+    rfl
+
+theorem corruptFreq_ignores_last (proc : Proc α) (fftK : Fft α) (c : Tdl α) (l : Option (IR α))
+    (x : List (List α)) (fft : Nat) (sel : Sel) :
+    ({ c with last := l } : Tdl α).corruptFreq proc fftK x fft sel = c.corruptFreq proc fftK x fft sel := by
+  unfold Tdl.corruptFreq
+  simp only [blockIRs_ignores_last]
+  rfl
 
 end PyPhysim.C03
